@@ -12,6 +12,50 @@ FSETS = [[f] for f in ref.FORMATS_CLI] + [list(ref.FORMATS_CLI)]
 TOK = re.compile(r"\b(?:[0-9a-f]{16}|[0-9a-f]{32}|[0-9a-f]{40}|c4[1-9A-HJ-NP-Za-km-z]{88})\b")
 
 
+# SHA-512 of b"A1\n" starts with a zero byte; with content b"plain" the per-child structure digest of the name n261.txt does
+# (both matter for the fixed-width c4 text <-> bytes conversion inside directory hashes)
+ZERO_TREES = [
+    {"z": DIR, "z/lead0.txt": b"A1\n", "z/other.txt": b"other", "top.txt": b"A1\n"},
+    {"n261.txt": b"plain", "w": DIR, "w/n261.txt": b"plain", "w/b.txt": b"b"},
+]
+
+
+def synthetic(ctx, fmt):
+    """drive the directory-hash context directly with chosen child digests (leading zero bytes, extremes) and compare
+    with the definition computed on raw bytes"""
+    from ascmhl import hasher as H
+    v = []
+    n = {"md5": 16, "sha1": 20, "xxh64": 8, "xxh3": 8, "xxh128": 16, "c4": 64}[fmt]
+    raws = [bytes(n), bytes(n - 1) + b"\x01", b"\x00" + b"\xff" * (n - 1), b"\x00\x00" + b"\x7f" * (n - 2), b"\xff" * n,
+            bytes(range(1, n + 1)), b"\x00" * (n // 2) + b"\x01" * (n - n // 2)]
+    import itertools
+    for k in (1, 2, 3):
+        for combo in itertools.combinations(range(len(raws)), k):
+            c = H.DirectoryHashContext(fmt)
+            names = []
+            for j, i in enumerate(combo):
+                name = f"child{j} ü.bin"
+                names.append(name)
+                if j % 2 == 0:
+                    c.append_file_hash("/x/" + name, ref.text_of(fmt, raws[i]))
+                else:
+                    c.append_directory_hashes("/x/" + name, ref.text_of(fmt, raws[i]), ref.text_of(fmt, raws[(i + 1) % len(raws)]))
+            want_c = sorted(raws[i] for i in combo)
+            want_s = []
+            for j, i in enumerate(combo):
+                child = raws[i] if j % 2 == 0 else raws[(i + 1) % len(raws)]
+                want_s.append(ref._raw(fmt, names[j].encode("utf8") + child))
+            want = (ref.digest(fmt, b"".join(sorted(want_c, key=lambda b: ref.text_of(fmt, b)))),
+                    ref.digest(fmt, b"".join(sorted(want_s, key=lambda b: ref.text_of(fmt, b)))))
+            got = (c.final_content_hash_str(), c.final_structure_hash_str())
+            if got != want:
+                v.append(Viol(PROP, "context-mismatch", {"fmts": fmt, "leading_zero": any(raws[i][0] == 0 for i in combo)},
+                              f"DirectoryHashContext({fmt}) over child digests {[raws[i].hex()[:12] for i in combo]}: {got}, definition {want}",
+                              {"synthetic": fmt}))
+                return v
+    return v
+
+
 def dirs_of(tree):
     return [""] + sorted(p for p, c in tree.items() if c is DIR)
 
@@ -165,11 +209,15 @@ def fresh_hashes(ctx, med, fmts, pats, now, order):
 
 
 def work(ctx, case):
+    if "synthetic" in case:
+        return synthetic(ctx, case["synthetic"]), {"cmds": 0, "dirs": 63}, "synthetic-" + case["synthetic"]
     vs, stats = eval_case(ctx, case)
     return vs, stats, engine.canon(case["tree"])
 
 
 def _eval_only(ctx, case):
+    if "synthetic" in case:
+        return synthetic(ctx, case["synthetic"])
     return eval_case(ctx, case)[0]
 
 
@@ -194,6 +242,11 @@ def main(tier, seed):
                 if ref.parent(ip) == "" or ref.parent(ip) in t:
                     t2 = dict(t); t2[ip] = ic
                     cases.append({"tree": t2, "fmts": ["md5"] if tier == "quick" else list(ref.FORMATS_CLI), "pats": ["*.tmp"]})
+    for zt in ZERO_TREES:
+        for fs in ([["c4"], list(ref.FORMATS_CLI)]):
+            cases.append({"tree": zt, "fmts": fs, "meta": True})
+    for f in ref.FORMATS_CLI:
+        cases.append({"synthetic": f, "tree": {}, "fmts": [f]})
     if tier == "thorough":
         rich = {p: c for p, c in c02.POOL}
         import itertools
@@ -210,14 +263,16 @@ def main(tier, seed):
         trans += stats["cmds"]
         dirs += stats["dirs"]
         eng.outcome(("viol" if vs else "ok", len(case["fmts"]), bool(case.get("nested")), bool(case.get("meta"))))
-    for c in cases[:: max(1, len(cases) // 5)]:
+    for c in [x for x in cases if "synthetic" not in x][:: max(1, len(cases) // 5)]:
         eng.sample({"tree": engine.tree_brief(c["tree"]), "fmts": c["fmts"], "nested": c.get("nested"), "order": c.get("order")})
     cov = {"states": len(states), "transitions": trans, "traces_validated_against_impl": trans, "exhaustive": True,
            "cases": len(cases), "directory_hash_comparisons": dirs,
            "rule": f"all parent-closed trees (size<={k}) over the C02 name pool x (six single formats + all six) sealed by the real "
                    "create; every <directoryhash>/<roothash> value compared with the 12-line reference recursion; nested child at "
                    "every directory; reversed directory listing; ignored entries (.DS_Store, -i *.tmp) present; verify -dh -co "
-                   "output; metamorphic in-place rename / content edit of every entry on freshly sealed trees"}
+                   "output; metamorphic in-place rename / content edit of every entry on freshly sealed trees; trees whose c4 file digest / "
+                   "per-child structure digest starts with a zero byte; the directory-hash context driven directly with synthetic child "
+                   "digests (leading zero bytes, extremes) in every format"}
     return eng.finish(cov, _eval_only)
 
 
